@@ -160,6 +160,12 @@ func runPortfolio(script string, dir string, name string, timeout time.Duration,
 		// The thorough tier (all == true) runs the same members, all at once, and waits until TWO of them agree (or all
 		// have finished): every answer is cross-checked by a second solver / script variant.
 		members = append(members, member{solvers[0], file, seed + 7, false, solvers[0].name + "/seed+7"})
+		if seed != 0 {
+			// the reference seed: whatever VERIF_SEED says, the portfolio also contains the runs the development
+			// regression used (quantifier instantiation order is seed-sensitive; a proof found with seed 0 stays found)
+			members = append(members, member{solvers[0], file, 0, false, solvers[0].name + "/seed0"})
+			members = append(members, member{solvers[2], file, 0, false, solvers[2].name + "/seed0"})
+		}
 		if slicedFile != "" {
 			members = append(members, member{solvers[0], slicedFile, seed, true, solvers[0].name + "/sliced"})
 			members = append(members, member{solvers[2], slicedFile, seed, true, solvers[2].name + "/sliced"})
